@@ -83,7 +83,7 @@ class EncoderLayout:
         self.alias = {}           # local name -> name of the buffer it denotes (x = buf, x = bytes(buf), helper results)
         self.body, self.helpers = inlined_body(prog, cls, self.fn)
         self._run(self.body)
-        if self.result is None:
+        if self.result is None and not getattr(self, "dead", False):
             raise AnalysisError("encode() of %s returns no recognisable buffer" % cls.name)
 
     # ---- value descriptors ----------------------------------------------
@@ -287,6 +287,8 @@ class EncoderLayout:
     # ---- statements --------------------------------------------------------
     def _run(self, stmts):
         for s in stmts:
+            if getattr(self, "dead", False):
+                return      # on this assumed combination of guards the encoder has raised: nothing after it runs
             self._stmt(s)
 
     def _stmt(self, s):
@@ -392,6 +394,8 @@ class EncoderLayout:
         if isinstance(s, ast.Raise):
             exc = s.exc.func if isinstance(s.exc, ast.Call) else s.exc
             self.raises.append((" and ".join(self.guards) or "always", U(exc), s))
+            if self.guards and getattr(self, "free_depth", 0) == 0:
+                self.dead = True       # reached through assumed guards only
             return
         if isinstance(s, ast.If):
             self._if(s)
@@ -456,7 +460,9 @@ class EncoderLayout:
         # a guard that only raises
         if all(isinstance(x, ast.Raise) for x in s.body) and not s.orelse:
             self.guards.append(gtxt)
+            self.free_depth = getattr(self, "free_depth", 0) + 1
             self._run(s.body)
+            self.free_depth -= 1
             self.guards.pop()
             return
         if gtxt not in self.branch_guards:
@@ -469,17 +475,31 @@ class EncoderLayout:
         b0, v0 = self._snapshot()
         a0 = dict(self.alias)
         raw0 = {k: list(v) for k, v in self.bufs.items()}
+        self.free_depth = getattr(self, "free_depth", 0) + 1
+        try:
+            self._if_free(s, gtxt, b0, v0, a0, raw0)
+        finally:
+            self.free_depth -= 1
+
+    def _if_free(self, s, gtxt, b0, v0, a0, raw0):
         self.guards.append(gtxt)
         self._run(s.body)
         self.guards.pop()
         b1, v1 = self._snapshot()
         a1 = dict(self.alias)
+        raw1 = ({k: list(v) for k, v in self.bufs.items()}, dict(self.vals), dict(self.alias))
         self.bufs, self.vals, self.alias = {k: list(v) for k, v in raw0.items()}, dict(v0), dict(a0)
         self.guards.append("not (%s)" % gtxt)
         self._run(s.orelse)
         self.guards.pop()
         b2, v2 = self._snapshot()
         a2 = dict(self.alias)
+        # an arm that ends by raising hands nothing on: what follows the statement sees the other arm's state
+        if s.orelse and isinstance(s.orelse[-1], ast.Raise):
+            self.bufs, self.vals, self.alias = raw1
+            return
+        if s.body and isinstance(s.body[-1], ast.Raise):
+            return
         # a name that stands for different buffers in the two arms becomes a buffer of its own (the merge of the two)
         keep = {k: v for k, v in a1.items() if a2.get(k) == v}
         for k in set(a1) | set(a2):
@@ -680,6 +700,39 @@ class DecoderLayout:
         return r
 
     # ---- expressions reading from a cursor ---------------------------------------
+    def _rel_to(self, e, v):
+        """e as v + Lin (the Lin part), or None when e is not of that form."""
+        if isinstance(e, ast.Name) and e.id == v:
+            return Lin(0)
+        if isinstance(e, ast.BinOp) and isinstance(e.op, (ast.Add, ast.Sub)):
+            pairs = ((e.left, e.right),) if isinstance(e.op, ast.Sub) else ((e.left, e.right), (e.right, e.left))
+            for a, b in pairs:
+                ra = self._rel_to(a, v)
+                if ra is None:
+                    continue
+                if any(isinstance(x, ast.Name) and x.id == v for x in ast.walk(b)):
+                    return None
+                try:
+                    lb = self.lin(b)
+                except AnalysisError:
+                    return None
+                if isinstance(e.op, ast.Sub):
+                    if lb.syms:
+                        return None
+                    lb = Lin(-lb.c)
+                return ra.add(lb)
+        return None
+
+    def _hdr_rel(self, e):
+        """Offset, from the first byte after the fixed header, of the index expression e = v + k over the scan variable v."""
+        v = self.hdr.get("var")
+        if not v or v in self.cursors or v in self.locals:
+            return None
+        r = self._rel_to(e, v)
+        if r is None:
+            return None
+        return r.add(Lin(-1 - (self.hdr.get("d") or 0)))
+
     def cursor_of(self, n):
         """(cursor name, offset Lin, upper Lin or None) for  rest / rest[i:] / rest[i:j]."""
         if isinstance(n, ast.Name) and n.id in self.cursors:
@@ -687,21 +740,8 @@ class DecoderLayout:
         if isinstance(n, ast.Subscript) and isinstance(n.value, ast.Name) and n.value.id == self.pkt and isinstance(n.slice, ast.Slice) \
                 and self.hdr.get("var") and n.slice.step is None:
             # pkt[v+k:] with v the index the fixed-header scan stopped at: the variable part starts at v+1, so this is offset k-1
-            v = self.hdr["var"]
-
-            def rel(e):
-                if isinstance(e, ast.Name) and e.id == v:
-                    return Lin(-1)
-                if isinstance(e, ast.BinOp) and isinstance(e.op, ast.Add):
-                    for a, b in ((e.left, e.right), (e.right, e.left)):
-                        if isinstance(a, ast.Name) and a.id == v:
-                            try:
-                                return Lin(-1).add(self.lin(b))
-                            except AnalysisError:
-                                return None
-                return None
-            lo = rel(n.slice.lower) if n.slice.lower is not None else None
-            hi = rel(n.slice.upper) if n.slice.upper is not None else None
+            lo = self._hdr_rel(n.slice.lower) if n.slice.lower is not None else None
+            hi = self._hdr_rel(n.slice.upper) if n.slice.upper is not None else None
             if lo is not None and (n.slice.upper is None or hi is not None):
                 if self.hdr["plus"] is None:
                     self.hdr["plus"] = 1       # offsets are taken relative to v+1 by construction
@@ -735,6 +775,11 @@ class DecoderLayout:
                 ok, i = self.fold(n.slice)
                 if ok:
                     return self.rec("hdrbyte", target, Lin(i), node=n, xform=None)
+                r = self._hdr_rel(n.slice)
+                if r is not None:
+                    if self.hdr["plus"] is None:
+                        self.hdr["plus"] = 1
+                    return self.rec("byte", target, r, node=n, xform=None)
         if isinstance(n, ast.Subscript) and isinstance(n.slice, ast.Slice):
             c = self.cursor_of(n)
             if c is not None:
@@ -794,34 +839,36 @@ class DecoderLayout:
         while i < len(stmts):
             s = stmts[i]
             # fixed-header skip idiom: v = 1; while pkt[v] & M: v += 1; rest = pkt[v+1:]
-            if isinstance(s, ast.Assign) and len(s.targets) == 1 and isinstance(s.targets[0], ast.Name) and i + 2 < len(stmts) \
+            if isinstance(s, ast.Assign) and len(s.targets) == 1 and isinstance(s.targets[0], ast.Name) and i + 1 < len(stmts) \
                     and isinstance(stmts[i + 1], ast.While) and not self.hdr["found"]:
                 v = s.targets[0].id
                 w = stmts[i + 1]
                 t = w.test
                 ok0, start = self.fold(s.value)
-                if ok0 and isinstance(t, ast.BinOp) and isinstance(t.op, ast.BitAnd) and isinstance(t.left, ast.Subscript) \
-                        and isinstance(t.left.value, ast.Name) and t.left.value.id == self.pkt and U(t.left.slice) == v \
-                        and len(w.body) == 1 and isinstance(w.body[0], ast.AugAssign) and U(w.body[0].target) == v:
+                d = None
+                if isinstance(t, ast.BinOp) and isinstance(t.op, ast.BitAnd) and isinstance(t.left, ast.Subscript) \
+                        and isinstance(t.left.value, ast.Name) and t.left.value.id == self.pkt:
+                    d = self._rel_to(t.left.slice, v)
+                    d = d.c if d is not None and not d.syms else None
+                one = len(w.body) == 1 and isinstance(w.body[0], ast.AugAssign) and U(w.body[0].target) == v \
+                    and isinstance(w.body[0].op, ast.Add) and self.fold(w.body[0].value) == (True, 1)
+                if ok0 and isinstance(start, int) and d is not None and one:
+                    # the scan looks at pkt[v+d] for v = start, start+1, ..: in terms of the index it tests, it starts at start+d and the
+                    # variable part begins one past the index it stops at, i.e. at v+d+1
+                    start = start + d
                     okm, m = self.fold(t.right)
-                    nxt = stmts[i + 2]
+                    nxt = stmts[i + 2] if i + 2 < len(stmts) else None
                     if isinstance(nxt, ast.Assign) and isinstance(nxt.value, ast.Subscript) and isinstance(nxt.value.value, ast.Name) \
                             and nxt.value.value.id == self.pkt and isinstance(nxt.value.slice, ast.Slice) and nxt.value.slice.upper is None:
                         lo = nxt.value.slice.lower
-                        plus = None
-                        if isinstance(lo, ast.BinOp) and isinstance(lo.op, ast.Add):
-                            if U(lo.left) == v:
-                                okp, plus = self.fold(lo.right)
-                            elif U(lo.right) == v:
-                                okp, plus = self.fold(lo.left)
-                        elif U(lo) == v:
-                            plus = 0
-                        self.hdr = {"found": True, "mask": m if okm else None, "start": start, "plus": plus, "node": w}
+                        plus = self._rel_to(lo, v) if lo is not None else None
+                        plus = (plus.c - d) if plus is not None and not plus.syms else None
+                        self.hdr = {"found": True, "mask": m if okm else None, "start": start, "plus": plus, "node": w, "var": v, "d": d}
                         self.cursors[nxt.targets[0].id] = Lin(0)
                         i += 3
                         continue
                     # the scan alone: what follows the fixed header is addressed as pkt[v+k:] where it is needed
-                    self.hdr = {"found": True, "mask": m if okm else None, "start": start, "plus": None, "node": w, "var": v}
+                    self.hdr = {"found": True, "mask": m if okm else None, "start": start, "plus": None, "node": w, "var": v, "d": d}
                     i += 2
                     continue
             self._stmt(s)
